@@ -108,12 +108,20 @@ def run(ctx):
         ctx.broke("translator tr_wire aborted", repr(e))
         text = None
     ctx.proofs() if text is not None else None
+    # extension: the receive path translated from the AST (gen/G03_recv.v), theorems in props/C03x.v
+    from tools.checks import c03_recv_gen
+    xtext = c03_recv_gen.translate(ctx) if text is not None else None
+    if xtext is not None:
+        ctx.proofs(part="C03x")
     ctx.coverage["trusted_base"] = [
         "Coq 8.16.1 kernel; no axioms",
         "wire model M02_wire (decoders) and receive-path model M03_recv, hand-written, tied by this run's correspondence",
         "handler bodies and cell cryptography are oracles (arbitrary functions) in the receive-path theorems",
-        "relay tables satisfy relays_paired (rendezvous partner exists) - proved as part of C05's table invariant",
-        "asyncio transport and TaskManager (exceptions inside asynchronous handler tasks are swallowed there, not observed here)",
+        "hand model M03_recv only: relay tables are assumed paired there (relays_paired); the generated model M03_recv_gen "
+        "(props/C03x.v) does not assume it - it is not an invariant of the code (fix a2da113)",
+        "tools/tr/tr_recv.py: AST translation of notify_listeners / on_packet / process_cell / relay_cell / incoming_crypto / "
+        "CellPayload.from_bin / the lazy_wrapper family into a state-plus-exception monad (fail closed); crypto_ok: decrypt "
+        "fails only with ValueError or RuntimeError, encrypt only with ValueError (checked on every abstracted real node)",
     ]
     ctx.assumptions = ["bytes are 0..255", "routing tables of the fed nodes are empty (fresh nodes) in the correspondence part"]
     loop = asyncio.new_event_loop()
@@ -122,6 +130,7 @@ def run(ctx):
         loop.run_until_complete(_run(ctx, text))
     finally:
         loop.close()
+    c03_recv_gen.stage(ctx, text=xtext)      # creates its own event loop
 
 
 async def _run(ctx, text):
@@ -129,7 +138,7 @@ async def _run(ctx, text):
     from ipv8.messaging.serialization import PackError
     r = ctx.rng("main")
     ser = wire.make_serializer()
-    reg = wire.registry(ser)
+    reg = wire.registry_for_harness(ctx, ser)
     keys = [default_eccrypto.generate_key("curve25519").pub().key_to_bin() for _ in range(2)]
     gen_class = c02.make_gen_class(reg, keys)
     classes = [c for c in tr_wire.shipped_classes() if c02.concrete(c)]
@@ -456,7 +465,10 @@ def replay(path):
     for v in js.get("violations", []):
         c = v["case"]
         print(v["key"], "::", v["what"])
-        if c["kind"] == "recv":
+        if c["kind"] == "recv-gen":
+            from tools.checks import c03_recv_gen
+            rc |= c03_recv_gen.replay_case(c)
+        elif c["kind"] == "recv":
             esc, evs = loop.run_until_complete(recv(bytes.fromhex(c["data"])))
             print("  escaped:", esc, " events:", [(e[0], e[1]) for e in evs])
             rc |= int(esc is not None)
